@@ -457,6 +457,35 @@ def run_process_family(root, mod):
     return len(progs), mism
 
 
+# ----------------------------------------------------------------------------------------------
+# equality on every type (README: `==` / `!=` work on all types other than pointers, slices and any)
+
+def equality_cases(quick):
+    from . import c02, tyir
+    from .tyir import Arr, Opt, Struct
+    tys = [t for t in c02.universe(quick) if not (isinstance(t, Struct) and t.name.startswith("B") and t.name[1:].isdigit()
+                                                   and int(t.name[1:]) not in (1, 2, 3, 5, 8, 9, 16, 17, 33, 64))]
+    extra = [Arr(2, t) for t in tys if isinstance(t, (Opt, tyir.ErrU, tyir.Enum)) or (isinstance(t, Struct) and t.name.startswith("M"))]
+    extra += [Arr(3, Opt(tyir.I64)), Arr(2, Opt(tyir.U8)), Arr(3, tyir.Struct("M5", [("a", tyir.U64), ("b", tyir.U8)]))]
+    tys = tys + extra
+    prelude = c02.BASE + tyir.all_decls(tys) + "\n"
+    cases = []
+    for i, T in enumerate(tys):
+        for shape in T.shapes():
+            v = T.val(100 + i, shape)
+            others = [v] + list(tyir.mutants(T, v))
+            body = [f"x : {T.spell()} = {T.lit(v)};"]
+            out = []
+            for k, o in enumerate(others):
+                body.append(f"y{k} : {T.spell()} = {T.lit(o)};")
+                body.append(f"if x == y{k} {{ pr(1); }} else {{ pr(0); }} if x != y{k} {{ pr(1); }} else {{ pr(0); }} "
+                            f"if y{k} == x {{ pr(1); }} else {{ pr(0); }}")
+                eq = T.leaves(o) == T.leaves(v)
+                out += [1, 0, 1] if eq else [0, 1, 0]
+            cases.append(Case(f"eq/{T.spell()}/{shape}", "\n".join(body), "".join(f"{x} " for x in out)))
+    return cases, prelude
+
+
 def run(tier, seed):
     started = time.time()
     quick = tier == "quick"
@@ -469,22 +498,26 @@ def run(tier, seed):
     runner = core.Runner("c01", batch_size=100, prelude=PRELUDE)
     mism = runner.run(cases)
     nproc, pm = run_process_family(runner.root, runner.mod)
+    eq_cases, eq_prelude = equality_cases(quick)
+    eq_runner = core.Runner("c01eq", batch_size=40, prelude=eq_prelude)
+    em = eq_runner.run(eq_cases)
     outcomes = {c.expected for c in cases}
     if len(outcomes) < 200:
         core.machinery_failure("vacuous run")
     coverage = {
         "states": len(outcomes),
-        "transitions": sum(len(c.meta["seq"]) for c in cases) + nproc,
-        "traces_validated_against_impl": len(cases) + nproc,
+        "transitions": sum(len(c.meta["seq"]) for c in cases) + nproc + sum(len(c.expected.split()) for c in eq_cases),
+        "traces_validated_against_impl": len(cases) + nproc + len(eq_cases),
         "exhaustive": True,
         "rule": "a trace is a statement sequence over the menu (each a program compiled by the real CLI and executed); states = distinct "
                 "model end states (printed environments); transitions = statements executed",
-        "bounds_completed": {"menu_statements": n, "max_sequence_length": k, "programs": len(cases), "process_level_programs": nproc},
+        "bounds_completed": {"menu_statements": n, "max_sequence_length": k, "programs": len(cases), "process_level_programs": nproc,
+                             "equality_family": f"{len(eq_cases)} (type, shape) cases: x == y, x != y, y == x for y = x and every single-leaf / variant mutant of x"},
         "distinct_outcomes": len(outcomes),
         "compilations": runner.compiles + nproc,
         "samples": [{"case": c.key, "statements": [MENU[i][0] for i in c.meta["seq"]], "expected": c.expected} for c in (cases[1], cases[n + 5], cases[-1])],
     }
-    core.finish("C01", tier, seed, started, coverage, mism + pm, None, assumptions=[
+    core.finish("C01", tier, seed, started, coverage, mism + pm + em, None, assumptions=[
         "sub-expressions with side effects are only placed at statement level, so no evaluation order is assumed",
         "the bounds of the quantifier (40 statements, depth 6, 12 globals) are not reached: sequences of <= 3 menu statements over a 15-variable environment",
     ])
